@@ -4,7 +4,7 @@
 # so several seeds can be tried at once. Prints one line per check plus the first violation lines.
 set -u
 D="$(realpath "$1")"; shift
-id=$(basename "$D"); wt=/tmp/wt_try_$id; out=/var/tmp/try_out_$id
+id=$(basename "$(dirname "$D")")_$(basename "$D"); wt=/tmp/wt_try_$id; out=/var/tmp/try_out_$id
 git -C /repo worktree remove --force $wt >/dev/null 2>&1
 git -C /repo worktree add -q --detach $wt HEAD || { echo "$id worktree failed"; exit 9; }
 cp /repo/src/fandango/language/parser/sa_fandango_cpp_parser.so $wt/src/fandango/language/parser/ 2>/dev/null
